@@ -37,7 +37,7 @@ def main():
     if "--all" in args:
         checks = ALL
     elif "--checks" in args:
-        checks = args[args.index("--checks") + 1].split(",")
+        checks = [c for c in args[args.index("--checks") + 1].split(",") if c != "NONE"]
     else:
         checks = [prop]
     base = tempfile.mkdtemp(prefix="spv-seeded-")
@@ -64,6 +64,12 @@ def main():
         res["demo_mutant_tail"] = o[-300:]
         env = dict(os.environ, SPV_REPO=wt, SPV_OUT=out)
         res["checks"] = {}
+        if "--seeds" in args:
+            # robustness of the catch: the property's own check at several other seeds
+            res["by_seed"] = {}
+            for sd in args[args.index("--seeds") + 1].split(","):
+                rc, o = sh([os.path.join(VERIF, "bin", "check"), prop, tier], cwd=VERIF, env=dict(env, VERIF_SEED=sd, SPV_NO_SUITE="1"), timeout=3600)
+                res["by_seed"][sd] = bool(rc == 1 and re.search(r"^VIOLATION", o, re.M))
         for c in checks:
             rc, o = sh([os.path.join(VERIF, "bin", "check"), c, tier], cwd=VERIF, env=env, timeout=3600)
             sigs = re.findall(r"signature=(\S+)", o)
